@@ -1614,6 +1614,23 @@ def known_witnesses(ctx):
         res["legacy.ConjugateApprox|nonscalar-gamma-accepted"] = (True, nonscalar_oracle(T, spec, "legacy_approx", smp))
     except Exception as e:
         res["legacy.ConjugateApprox|nonscalar-gamma-accepted"] = (False, "refused: %s" % str(e)[:100])
+    # a refused re-assignment must not leave the refused target in the sampler object
+    for iface in ("exp", "approx"):
+        sg = "%s|refused-target-retained" % site(iface)
+        try:
+            smp, _, _ = sampler_in_state(iface, "after-sample")
+            before = draw(iface, smp)[1]
+            bad = dict(base_spec(iface), dep=scalar_dep(V()), data=["3", "1", "4"])
+            refused = False
+            try:
+                with QUIET:
+                    smp.target = build_target(bad)
+            except Exception:
+                refused = True
+            after = draw(iface, smp)[1]
+            res[sg] = (bool(refused and after != before), "after the refused assignment step() draws from %s, before from %s" % (after, before))
+        except Exception as e:
+            res[sg] = (False, "no draw after the refusal: %r" % e)
     # ConjugateApprox and a non-zero LMRF location
     from cuqi.distribution import LMRF, Gamma, Posterior
     for iface, sg in (("approx", "exp.ConjugateApprox|location:nonzero-with-zero-sum-accepted"), ("legacy_approx", "legacy.ConjugateApprox|location-ignored")):
@@ -1731,6 +1748,35 @@ def replay(ctx, meta):
             print("witness", sig, "still fails" if fails else "no longer fails", "--", detail)
         return 0
     op = m.get("op")
+    if op == "retarget":
+        spec, iface, state = m["spec"], m["iface"], m["state"]
+        T = build_target(spec)
+        smp, initialized, had = sampler_in_state(iface, state)
+        before = draw(iface, smp)[1] if had else None
+        print("sampler object in state %r (initialised: %s); it draws from numpy.random.gamma%s for the target it holds" % (state, initialized, before))
+        try:
+            with QUIET:
+                smp.target = T
+            print("implementation: sampler.target = <target of the spec>  ACCEPTED")
+            val, ga, *_ = draw(iface, smp)
+            print("implementation: next step draws numpy.random.gamma(shape=%r, scale=%r)" % (ga[0], ga[1]))
+            if spec["family"] in ("gaussian", "gmrf") and spec["prior"]["kind"] == "gamma" and spec["prior"].get("dim", 1) == 1:
+                orc = oracle_sample(T, spec, ga[0], 1.0 / ga[1])
+                print("target-implied : shape %r rate %r" % (orc["k"], orc["r"]))
+                print("oracle         :", orc["form_fail"] or orc["shape_fail"] or orc["rate_fail"] or "the drawn Gamma is proportional to the target")
+        except Exception as e:
+            print("implementation: sampler.target = <target of the spec>  REFUSED with %s: %s" % (type(e).__name__, str(e)[:200]))
+            print("object holds the refused target:", smp.target is T)
+            try:
+                print("implementation: next step draws numpy.random.gamma%s" % (draw(iface, smp)[1],))
+            except Exception as e2:
+                print("implementation: next step raises %r" % e2)
+        import importlib
+        try:
+            construct(iface, T); print("a fresh sampler: ACCEPTS this target")
+        except Exception as e:
+            print("a fresh sampler: REFUSES this target (%s)" % type(e).__name__)
+        return 0
     if op in ("sample", "validate"):
         spec, iface = m["spec"], m["iface"]
         try:
